@@ -246,6 +246,16 @@ def _w_sub(res, p):
         records.append(("marginal-keys",) + ex.prove(z3.BoolVal(ok_keys)))
         if ok_keys:
             records.append(("marginal-values",) + ex.prove(z3.And(*[ST.zr_real(got[k]) == want[k] for k in want])))
+        if len(qubits) >= 2:
+            # the same object asked again for the same qubits in another order: the listed order decides the digit order
+            rev = list(reversed(qubits))
+            want_r = {}
+            for k, i in zip(keys, range(len(keys))):
+                pk = tuple(k[q] for q in rev)
+                want_r[pk] = want_r.get(pk, 0) + names[f"w{i}"]
+            got_r = src.subdistribution(rev).distribution_dict
+            okr = set(got_r) == set(want_r)
+            records.append(("marginal-in-listed-order-on-a-second-call",) + (ex.prove(z3.And(*[ST.zr_real(got_r[k]) == want_r[k] for k in want_r])) if okr else ex.prove(z3.BoolVal(False))))
         sub2 = src.subdistribution(list(qubits))
         records.append(("same-result-twice",) + ex.prove(z3.BoolVal(set(sub2.distribution_dict) == set(got)) if not ok_keys else z3.And(*[ST.zr_real(sub2.distribution_dict[k]) == ST.zr_real(got[k]) for k in got])))
         return sub
@@ -386,7 +396,7 @@ def _w_nll(res, p):
         records.append(("nll-at-least-entropy",) + ex.prove(ST.zr_real(nll) >= H - (csum - 1)))
         return nll
 
-    with ST.patched((CN, "math", lnp)):
+    with ST.patched((CN, "math", lnp), (JS, "math", lnp)):
         ex = ST.Explorer(base=base, timeout_ms=15000)
         outs = ex.run(fn)
     for o in outs:
@@ -518,9 +528,14 @@ def replay(data):
                     return clause == "subdistribution-raises", f"raised {type(e).__name__}: {e}"
                 if clause == "source-intact":
                     return src.distribution_dict != before, f"source after: {src.distribution_dict}"
+                order = list(p["qubits"])
+                if clause == "marginal-in-listed-order-on-a-second-call":
+                    # the same two-call history: listed order first, reversed order second, on one object
+                    order = list(reversed(p["qubits"]))
+                    sub = src.subdistribution(order)
                 want = {}
                 for k, w in zip(keys, ws):
-                    pk = tuple(k[q] for q in p["qubits"])
+                    pk = tuple(k[q] for q in order)
                     want[pk] = want.get(pk, 0) + w
                 got = sub.distribution_dict
                 tot = sum(want.values())
